@@ -118,6 +118,7 @@ def run_check(prop, tier):
     per_group = collections.defaultdict(lambda: collections.Counter())
     harness_errors = []
     njobs = 0
+    job_walls = []
     for flavour, js in by_flavour.items():
         try:
             env = build.worker_env(flavour)
@@ -144,6 +145,7 @@ def run_check(prop, tier):
                 harness_errors.append((j, r))
                 continue
             res = r['result']
+            job_walls.append((round(r.get('wall', 0), 1), j['fn'], repr(j.get('args'))[:200]))
             merge(total, res)
             for v in res.get('violations', ()):
                 v = dict(v)
@@ -199,6 +201,13 @@ def run_check(prop, tier):
     if fresh:
         print('%d violating case(s), %d distinct signature(s)' % (len(fresh), len(seen_sig)))
     wall = time.time() - t0
+    job_walls.sort(reverse=True)
+    total['_slowest'] = job_walls[:8]
+    total['_cpu_s'] = round(sum(w for w, _, _ in job_walls), 1)
+    if os.environ.get('VERIF_TIMING'):
+        for w in job_walls[:25]:
+            print('TIMING', w)
+        print('TIMING total cpu', total['_cpu_s'])
     write_evidence(prop, tier, mod, total, samples, per_group, len(fresh),
                    {k: n for k, (f, n) in known.items()}, wall, njobs)
     return 1 if fresh else 0
@@ -229,6 +238,9 @@ def write_evidence(prop, tier, mod, total, samples, per_group, nviol, known, wal
     for k, v in total.items():
         if k.startswith('n_'):
             cov[k] = int(v)
+    if '_slowest' in total:
+        cov['slowest_jobs'] = [list(x) for x in total['_slowest']]
+        cov['cpu_s'] = total['_cpu_s']
     if per_group:
         cov['per_configuration'] = {g: dict(c) for g, c in sorted(per_group.items())}
     cov['known_findings_hit'] = known
@@ -313,6 +325,37 @@ def main(argv):
     if cmd == 'selftest':
         from . import selftest
         return selftest.main(argv[1:])
+    if cmd == 'dev':
+        # ./check dev <prop> "<python dict of job args>" [flavour] : run one job, print result
+        import ast
+        args = eval(argv[2])
+        fn = 'job'
+        if '__fn' in args:
+            fn = args.pop('__fn')
+        env = build.worker_env(argv[3] if len(argv) > 3 else 'plain')
+        job = {'mod': 'vt.props.' + argv[1].lower(), 'fn': fn, 'args': args, 'id': 0}
+        t0 = time.time()
+        for j, r in pool.run_jobs([job], env, 1):
+            if isinstance(r, pool.WorkerDied):
+                print('DIED', r.kind, r.rc, r.case, r.stderr[-3000:])
+                return 1
+            if not r.get('ok'):
+                print(r.get('error'), r.get('trace'))
+                return 2
+            res = r['result']
+            vs = res.pop('violations', [])
+            res.pop('outcomes', None)
+            print(json.dumps(_jsonable(res), indent=1)[:3000])
+            print('%d violations, %.1fs' % (len(vs), time.time() - t0))
+            seen = set()
+            for v in vs:
+                k = json.dumps(_jsonable(v.get('sig')), sort_keys=True)
+                if k not in seen:
+                    seen.add(k)
+                    print(k, '::', (v.get('detail') or '')[:300], '|', repr(v.get('case'))[:300])
+                if len(seen) > 40:
+                    break
+        return 0
     if cmd.upper() in PROPS:
         tier = argv[1] if len(argv) > 1 else os.environ.get('VERIF_TIER', 'quick')
         return run_check(cmd.upper(), tier)
